@@ -121,6 +121,10 @@ func hashString(class string, v int, alg int) string {
 		return b64(refMultihash(0x11, digest[:20]))
 	case "unknown_code":
 		return b64(refMultihash(0x7f, digest[:32]))
+	case "unsupported_two_byte_code":
+		// 0x1012 as a varint (0x92 0x20), length 32, the SHA-256 digest of the value
+		d := refHash(sha2_256, canon)
+		return b64(append([]byte{0x92, 0x20, 0x20}, d...))
 	case "short_digest_supported_code":
 		return b64(refMultihash(code, digest[:20]))
 	}
